@@ -217,7 +217,7 @@ class Engine:
         z = self.coerce(val, t, node).z
         st.heap[(hc, hf)] = z3.Store(arr, obj.z, z)
         if st.written is not None:
-            st.written.add(("heap", hc, hf))
+            st.written.add(("heap", hc, hf, obj.z))
 
     @staticmethod
     def int_range(meta):
